@@ -161,6 +161,9 @@ package zygo
 // Stack (stack.go): representation invariant used by C01, C03, C04, C05, C15
 // ===========================================================================
 //@ macro wfs(s *Stack) bool = s != nil && s.tos == len(s.elements) - 1
+// Data-structure invariant of every Stack: only the functions listed write
+// tos / elements (or allocate a Stack); everyone else may assume wfs.
+//@ typeinv C01 Stack | tos, elements | (*Zlisp).NewStack, (*Stack).Clone, (*Stack).Push, (*Stack).Pop, (*Stack).TruncateToSize | wfs(self)
 
 //@ func (*Zlisp).NewStack
 //@ C01,C15,C19 pure
@@ -220,6 +223,9 @@ package zygo
 // ===========================================================================
 // The two tables are mutually inverse on their domains.  (Deliberately not
 // "the counter is above every used number": duplicates carry stale counters.)
+// Data-structure invariant of the symbol tables (shared by an interpreter
+// family): only the listed functions write them.
+//@ typeinv C19 Zlisp | symtable, revsymtable | (*Zlisp).MakeSymbol, NewZlispWithFuncs, (*Zlisp).Clone, (*Zlisp).Duplicate | bij(self)
 //@ macro bij(env *Zlisp) bool = forall(n, string, has(env.symtable, n) ==> has(env.revsymtable, env.symtable[n]) && env.revsymtable[env.symtable[n]] == n)
 //@ |  && forall(k, int, has(env.revsymtable, k) ==> has(env.symtable, env.revsymtable[k]) && env.symtable[env.revsymtable[k]] == k)
 
@@ -359,3 +365,8 @@ package zygo
 //@ C14 ensures shrinks: old(exists(j, 0 <= j && j < len(hash.KeyOrder) && keq(hash.KeyOrder[j], key))) ==> len(hash.KeyOrder) == old(len(hash.KeyOrder)) - 1
 //@ C14 ensures not-listed: old(forall(j, 0 <= j && j < len(hash.KeyOrder) ==> !keq(hash.KeyOrder[j], key))) ==> hash.KeyOrder == old(hash.KeyOrder) && sameOrder(hash)
 //@ C14 loop 0 invariant -1 <= rangeindex && rangeindex < old(len(hash.KeyOrder)) && hash.KeyOrder == old(hash.KeyOrder) && sameOrder(hash) && forall(j, 0 <= j && j <= rangeindex ==> !keq(old(hash.KeyOrder[j]), key))
+
+// ===========================================================================
+// C01  no input can crash the host: panic-freedom sweep outside the builtin recover
+// ===========================================================================
+//@ sweepfile C01 generator.go
